@@ -5,6 +5,7 @@
   The engines themselves are black boxes: they are compared with this reference differentially.
 -/
 import ZanVerif.Engine.StoreLemmas
+import ZanVerif.Engine.IterFallback
 
 namespace Z.Props.C20
 open Z.Store Z.Ref
@@ -68,6 +69,32 @@ theorem C20_bounds_transparent (ks : List Bytes) (mn mx : Option Bytes) (lopen r
       | (intro h h2; exact ⟨Z.IterP.SOrd.le_of_lt h, h2⟩)
       | (intro h _; exact Z.IterP.SOrd.le_of_lt h)
       | skip
+
+/-- **reverse iteration over an engine that does NOT bound its cursor** (the in-memory engine: it stores the bounds
+    of an iterator without applying them): the wrapper as repaired by 855ff6c — start position with the
+    "SeekForPrev found nothing ⇒ SeekToFirst" fallback, `Valid` checking Max in reverse too — hands out exactly the
+    specified keys over the view of ALL keys, for every sorted store and option record.  (`C20_iter_spec` is the same
+    statement over a view the engine has bounded, where the fallback is a no-op: `Z.IterP.fallback_noop`.) -/
+theorem C20_iter_spec_unbounded_engine (m : List KV) (hm : Z.Ref.Sorted m) (mn mx : Option Bytes) (lopen ropen : Bool)
+    (offset count : Nat) (unlimited : Bool) :
+    let o : Z.IterP.Opts Bytes := { min := mn, max := mx, lopen := lopen, ropen := ropen, offset := offset,
+                                    count := if unlimited then none else some count }
+    let all := (m.map (·.1)).filter (fun _ => true)
+    Z.IterP.iterateRevF o all.reverse
+      = Z.IterP.takeOpt o.count ((all.reverse.filter (Z.IterP.inRange o)).drop offset) := by
+  intro o all
+  exact Z.IterP.iterateRevF_eq_spec o all.reverse (view_rev_sorted hm _)
+
+/-- what the repair removed (the witness of the known finding, now fixed): keys aaa1 … aaa4, reverse over the closed
+    range [aaa0, aaa0z] — no key is ≤ Max, the fallback puts the cursor on aaa1, and without the added check of
+    `Valid` that key, which is ABOVE Max, is handed out; with it nothing is -/
+def fbOpts : Z.IterP.Opts Bytes :=
+  { min := some [97, 97, 97, 48], max := some [97, 97, 97, 48, 122], lopen := false, ropen := false, offset := 0, count := none }
+def fbView : List Bytes := [[97, 97, 97, 52], [97, 97, 97, 51], [97, 97, 97, 50], [97, 97, 97, 49]]
+
+theorem C20_reverse_fallback_witness :
+    Z.IterP.iterateRevOld fbOpts fbView = [[97, 97, 97, 49]] ∧ Z.IterP.iterateRevF fbOpts fbView = [] := by
+  decide
 
 /-- n counter merges then a read: the sum modulo 2^64 -/
 theorem C20_merge_counter (m : List KV) (hm : Z.Ref.Sorted m) (k : Bytes) (ns : List Nat) :
